@@ -97,7 +97,29 @@ def main():
     if variant.get("cwd"):
         os.makedirs(variant["cwd"], exist_ok=True)
         os.chdir(variant["cwd"])
-    out = run_scenario(job["scenario"], variant)
+    out = None if variant.get("warm_perturbed") else run_scenario(job["scenario"], variant)
+    if variant.get("warm_perturbed"):
+        # first an execution under a perturbed copy of the configuration (same world and turns), result discarded
+        import copy
+
+        def perturb(o, path=()):
+            if isinstance(o, dict):
+                return {k: perturb(v, path + (k,)) for k, v in o.items()}
+            if isinstance(o, bool) or o is None or isinstance(o, (str, list)):
+                return o
+            if isinstance(o, int):
+                return o + 1 if o < 10 ** 6 else o
+            if isinstance(o, float):
+                return o * 0.05 if abs(o) <= 1.0 else o * 0.25
+            return o
+
+        sc2 = copy.deepcopy(job["scenario"])
+        sc2["cfg"] = perturb(sc2["cfg"])
+        try:
+            run_scenario(sc2, {}, "primer")
+        except Exception:
+            pass  # a perturbed config the validator rejects: no primer, the variant degenerates to a plain replay
+        out = run_scenario(job["scenario"], variant, "real")
     if variant.get("warm"):
         # second execution in the same (now warm) process on fresh states; process-global caches are NOT reset
         out = run_scenario(job["scenario"], variant, "warm")
